@@ -272,6 +272,11 @@ def impl(case):
         out["cache"] = None
         out["unobservable"] = ["cache"]
     out["cached_run_equal"] = out["first"] == out["no_cache"]
+    if isinstance(case["doc"], (dict, list)):
+        from .evalbase import custom_functions_agree
+        out["custom_functions"] = custom_functions_agree(case["doc"], case["ctx"])
+        if out["custom_functions"] == "same" and isinstance(case["other"], (dict, list)):
+            out["custom_functions"] = custom_functions_agree(case["other"], case["ctx"])       # the same environments, next document
     return out
 
 
@@ -321,11 +326,15 @@ def decode(sx, case):
     model = {"text": render(case), "first": ms, "again": ms, "hundredth": ms, "no_cache": ms, "interleaved_ok": True, "mutated_in_place_ok": True,
              "threads_agree": True, "threads_first": vals, "doc_unchanged": True, "ctx_unchanged": True,
              "query_unchanged": True, "recompiled_equal": True}
+    if isinstance(case["doc"], (dict, list)):
+        model["custom_functions"] = "same"
     model["cache"] = [[x[0] == "true", [[int(i) for i in pos] for pos in x[1]]] for x in extra.get("cache", [])]
     model["cached_run_equal"] = extra.get("cached-run-equal") == "true"
     spec_ = {k: [[m[0], m[1]] for m in nodes] for k in ("first", "again", "hundredth", "no_cache")}
     spec_.update({"cached_run_equal": True, "interleaved_ok": True, "mutated_in_place_ok": True, "threads_agree": True, "threads_first": [m[1] for m in nodes], "doc_unchanged": True,
                   "ctx_unchanged": True, "query_unchanged": True, "recompiled_equal": True})
+    if isinstance(case["doc"], (dict, list)):
+        spec_["custom_functions"] = "same"
     return {"model": model, "spec": spec_, "in_domain": ext[1] == "true" and wf[1] == "true"}
 
 
@@ -339,6 +348,8 @@ def project(case, res, dec=None):
     for k in ("cached_run_equal", "interleaved_ok", "mutated_in_place_ok", "threads_agree", "threads_first", "doc_unchanged", "ctx_unchanged", "query_unchanged",
               "recompiled_equal"):
         out[k] = res[k]
+    if "custom_functions" in res:
+        out["custom_functions"] = res["custom_functions"]
     return out
 
 
